@@ -59,6 +59,18 @@
 (*     - and the next replacement still "changes what later handshakes     *)
 (*     see" (negative control "deaf": after a failed reload the server     *)
 (*     does not react to reload requests any more).                        *)
+(*     One cause of a failed reload concerns client authentication itself: *)
+(*     the client-CA BUNDLE at the configured path is UNUSABLE when it is  *)
+(*     read (empty, cut short, a key instead of a certificate, garbage).   *)
+(*     "A server configured with a client CA completes the handshake only  *)
+(*     with clients presenting a certificate issued under that CA": a      *)
+(*     bundle that yields no CA is not "no client CA configured".  Such a  *)
+(*     reload fails like any other (BotchedReloadCA: nothing changes, the  *)
+(*     client CA in force stays, a client without a certificate or with a  *)
+(*     foreign one is still refused), and a server STARTED on such a       *)
+(*     bundle does not come up open (BotchedStart) -> ConfigKept,          *)
+(*     Authenticated, JudgedAsConfigured (negative control "openonbadca":  *)
+(*     an unusable bundle turns client authentication off).                *)
 (*     RETURNING CLIENTS THAT RESUME.  A client that keeps its TLS state   *)
 (*     across connections holds TICKETS (TLS 1.3 tickets, TLS 1.2 session  *)
 (*     ids): each was issued by an admitted handshake under one server     *)
@@ -154,9 +166,9 @@ ASSUME Counts ==
 (* generation g in force, a certificate of generation g is the cell's "trustedCA", one of any other            *)
 (* generation (retired, or not loaded yet) the cell's "otherCA".                                              *)
 CONSTANT Mode       \* "swap" (the property) | negative controls: "stale" | "inplace" | "disconnect" | "dropca" |
-                    \* "staleca" | "eagerca" | "deaf" | "staleroots" | "sharedcache"
+                    \* "staleca" | "eagerca" | "deaf" | "staleroots" | "sharedcache" | "openonbadca"
 ASSUME Mode \in {"swap", "stale", "inplace", "disconnect", "dropca", "staleca", "eagerca", "deaf", "staleroots",
-                 "sharedcache"}
+                 "sharedcache", "openonbadca"}
 
 VARIABLES
   identityVersion,  \* the identity the operator installed last (number of reloads so far)
@@ -275,6 +287,26 @@ Rotate ==
 BotchedReload ==
   /\ botched' = botched + 1
   /\ UNCHANGED <<identityVersion, live, conns, wantCA, liveCA, wantGen, liveGen, dueGen, tickets>>
+  /\ UNCHANGED cvars
+
+\* The client-CA bundle at the configured path is UNUSABLE when the server reads it (it yields no CA certificate).  The server
+\* was configured with a client CA: it must not conclude that there is none.
+\* (negative control "openonbadca": a bundle without a usable certificate turns client authentication off)
+BadCA == /\ wantCA = "configured"
+         /\ liveCA' = IF Mode = "openonbadca" THEN "none" ELSE liveCA
+\* ... at a reload request: the reload fails like any other failed reload - the identity AND the client CA installed last stay
+\* in force (the operator restores the bundle - the same generation - before the next reload)
+BotchedReloadCA ==
+  /\ BadCA
+  /\ botched' = botched + 1
+  /\ UNCHANGED <<identityVersion, live, conns, wantCA, wantGen, liveGen, dueGen, tickets>>
+  /\ UNCHANGED cvars
+\* ... at start-up: the server refuses to start (the operator repairs the bundle and starts it: this very state), or it comes
+\* up demanding certificates under the configured CA all the same; in no case is it a server without client authentication
+BotchedStart ==
+  /\ BadCA
+  /\ identityVersion = 0 /\ conns = <<>> /\ botched = 0
+  /\ UNCHANGED <<identityVersion, live, conns, wantCA, wantGen, liveGen, dueGen, botched, tickets>>
   /\ UNCHANGED cvars
 
 \* (negative control "deaf": the first failed reload was the last one the server reacted to)
